@@ -274,8 +274,13 @@ def gen_load(r, name, tier):
             lines.append("%d sleep %d" % (bt, r.choice([0, 500, 3000])))
     if helper:
         ht = nw + 1
+        second = r.random() < 0.3        # a second backup started from another thread: refused while the first runs
         for i in range(r.choice([3, 10, 25])):
             lines.append("%d %s" % (ht, r.choice(["sync", "cp", "state", "sleep 300", "sync", "cp"])))
+            if second and i == 1:
+                lines.append("%d bkp %d" % (ht, nb))
+        if second:
+            nb += 1
     lines.append("run")
     lines.append("end")
     return name, lines, dict(nw=nw, nb=nb, helper=helper)
@@ -331,9 +336,16 @@ def cut_check(r, meta):
     for (key, o) in bk:
         n = int(o["text"].split()[1])
         rc = o["out"].split()[0]
+        if rc == "busy":
+            if not any(k2 != key and o2["inv"] < o["res"] and o["inv"] < o2["res"] for (k2, o2) in bk):
+                probs.append(("bkp-rc", "iwkv_online_backup returned BACKUP_IN_PROGRESS although no other backup call overlaps it"))
+            continue
         if rc != "ok":
             probs.append(("bkp-rc", "iwkv_online_backup returned %s" % o["out"]))
             continue
+        for (k2, o2) in bk:
+            if k2 != key and o2["out"].split()[0] == "ok" and o2["inv"] < o["inv"] and o["res"] < o2["res"]:
+                probs.append(("bkp-rc", "a backup ran to completion entirely inside another backup call (second backup not refused)"))
         img = r.imgs.get(n)
         mm = re.match(r"(\S+) close=(\d+)", img or "")
         if not mm:
